@@ -15,10 +15,10 @@ for i in range(0, len(args), 3):
     files[f] = files[f].replace(old, new)
 res = []
 for f in files:
-    out = []
+    buf = []
     for l in difflib.unified_diff(orig[f].splitlines(True), files[f].splitlines(True), "a/" + f, "b/" + f):
         if not l.endswith("\n"):
             l += "\n\\ No newline at end of file\n"
-        out.append(l)
-    res.append("".join(out))
+        buf.append(l)
+    res.append("".join(buf))
 open(out, "w").write("".join(res))
